@@ -7,20 +7,34 @@ index, bptk.plot_scenarios(return_df) index, Element.plot(return_df) index, step
 route independence of Model.memoize (three arithmetic routes to every grid point -> identical bits);
 reference check of every channel directly against the decimal grid computed with `decimal.Decimal`.
 """
-import json, time
+import json, os, time
 from decimal import Decimal as D
 from common import *
 
 STARTS = ["0", "1", "0.5", "0.05", "2.25", "100", "1000.1"]
 DTS = ["1", "0.5", "0.25", "0.125", "0.2", "0.1", "0.05", "0.02", "0.01", "0.001"]
 # wave 3: starts that are not a multiple of dt and have more decimals than dt (all channels)
+# wave 7: value kinds of the run specs — negative start times, large magnitudes, ints as the user may write them
+KIND_PAIRS = [("-1", "0.5", "float"), ("-0.3", "0.1", "float"), ("-2.25", "0.25", "float"), ("-1000.1", "0.001", "float"),
+              ("-0.05", "0.02", "float"), ("123456789.25", "0.25", "float"), ("1000000", "0.1", "float"),
+              ("0", "1", "int"), ("2", "0.5", "int"), ("-3", "1", "int"), ("100", "0.25", "int"), ("1", "2", "int")]
 EXTRA_PAIRS = [("0.25", "0.5"), ("1.125", "0.25"), ("0.3", "0.25"), ("0.05", "0.5"), ("2.25", "1"), ("0.375", "0.125"), ("0.3", "0.2")]
 # how a session is begun: explicit starttime and dt | no starttime/dt argument (defaults 0.0 / the scenario's dt) |
 # starttime below the scenario start, no dt | explicit starttime, no dt
 SESSION_MODES = ["explicit", "default", "below", "start-only"]
-SCALE_SAMPLES = ["0", "1", "0.5", "0.05", "2.25", "100", "1000.1", "0.125", "0.001", "1e-05", "0.00015", "2.5e-07",
+SCALE_SAMPLES = ["-0.3", "-1000.1", "-2", "-0.00015", "-123456.789", "1000000", "123456789.25", "0", "1", "0.5", "0.05", "2.25", "100", "1000.1", "0.125", "0.001", "1e-05", "0.00015", "2.5e-07",
                  "123456.789", "99999.99999", "0.1", "0.3", "7", "10", "1000", "12345678.123456", "9999999999999",
                  "99999999999999", "123456789012345", "0.0625", "3.14159", "1e-13", "0.99999999999999"]
+
+
+_NUM = ["float"]      # how run specs are handed to the code: "float" | "int" (Python ints wherever the decimal is integral)
+
+
+def num(x):
+    """the number the code receives for the decimal string x"""
+    if _NUM[0] == "int" and D(x) == D(x).to_integral_value():
+        return int(D(x))
+    return float(x)
 
 
 def dstr(x):
@@ -55,6 +69,8 @@ def build_model(start, stop, dt, name="g"):
     c.equation = 1.0
     tm = m.converter("tm")
     tm.equation = sd.time()
+    vec = m.converter("vec")
+    vec.setup_vector(2, [1.0, 2.0])
     return m
 
 
@@ -92,19 +108,19 @@ class Bptk:
 # ----------------------------------------------------------------------------- channels on the real code
 def ch_timerange(start, dt, n, excl):
     from BPTK_Py.util import timerange
-    stop = float(dstr(D(start) + n * D(dt)))
-    return labels(timerange(float(start), stop, float(dt), exclusive=excl))
+    stop = num(dstr(D(start) + n * D(dt)))
+    return labels(timerange(num(start), stop, num(dt), exclusive=excl))
 
 
-def ch_batch(start, dt, ns):
+def ch_batch(start, dt, ns, extra_ns=()):
     """run_scenarios / plot_scenarios(return_df) index and Element.plot index for every n in ns.
     One bptk object, one model per n."""
     out = {}
     with Bptk() as b:
         models = {}
         for n in ns:
-            stop = float(dstr(D(start) + n * D(dt)))
-            m = build_model(float(start), stop, float(dt), name=f"g{n}")
+            stop = num(dstr(D(start) + n * D(dt)))
+            m = build_model(num(start), stop, num(dt), name=f"g{n}")
             b.register_model(m)
             models[n] = m
         for n in ns:
@@ -118,29 +134,43 @@ def ch_batch(start, dt, ns):
             el = models[n].converters["tm"].plot(return_df=True)
             el_idx = labels(el.index)
             out[n] = {"run": run_idx, "plotsc": pl_idx, "plot": el_idx, "tm_ok": tm_ok}
+            if n in extra_ns and n >= 3:
+                # other shapes of the same grid: return formats of run_scenarios, a second run, Element.plot with explicit
+                # arguments (sub-range, coarser dt), the arrayed branch of Element.plot
+                S_, H_ = D(start), D(dt)
+                rd = b.run_scenarios(scenario_managers=[sm], scenarios=["base"], equations=["tm"], series_names={}, return_format="dict")
+                out[n]["run_dict"] = labels(rd[sm]["base"]["equations"]["tm"].index)
+                rj = json.loads(b.run_scenarios(scenario_managers=[sm], scenarios=["base"], equations=["tm"], series_names={}, return_format="json"))
+                out[n]["run_json"] = ",".join(rj[sm]["base"]["equations"]["tm"].keys())
+                out[n]["run_again"] = labels(b.run_scenarios(scenario_managers=[sm], scenarios=["base"], equations=["tm", "s"], series_names={}).index)
+                tmc = models[n].converters["tm"]
+                out[n]["plot_sub"] = labels(tmc.plot(starttime=num(dstr(S_ + H_)), stoptime=num(dstr(S_ + (n - 1) * H_)), dt=num(dt), return_df=True).index)
+                out[n]["plot_coarse"] = labels(tmc.plot(dt=num(dstr(2 * H_)), stoptime=num(dstr(S_ + 2 * (n // 2) * H_)), return_df=True).index)
+                arr = models[n].converters["vec"].plot(return_df=True)
+                out[n]["plot_arr"] = labels(arr.index) + ("" if list(arr.columns) == ["0", "1"] else "|columns=%s" % list(arr.columns))
     return out
 
 
 def session_arg(mode, start):
     """the `starttime` argument begin_session receives in this mode, as the decimal string the driver gets"""
-    return {"explicit": start, "start-only": start, "default": "0", "below": dstr(D(start) - D("0.5")) if D(start) >= D("0.5") else "0"}[mode]
+    return {"explicit": start, "start-only": start, "default": "0", "below": dstr(D(start) - D("0.5")) if (D(start) >= D("0.5") or D(start) < 0) else "0"}[mode]
 
 
 def ch_session(start, dt, n, calls, mode="explicit"):
     """`calls` run_step calls on a scenario with stop = start+n*dt: keys per call ('stop' when refused);
     also the keys of session_results().  A step whose TIME value is not its own label, or whose stock value is not the
     Euler value of that grid point, is marked."""
-    stop = float(dstr(D(start) + n * D(dt)))
+    stop = num(dstr(D(start) + n * D(dt)))
     with Bptk() as b:
-        m = build_model(float(start), stop, float(dt), name="g")
+        m = build_model(num(start), stop, num(dt), name="g")
         b.register_model(m)
         kw = {}
         if mode in ("explicit", "start-only"):
-            kw["starttime"] = float(start)
+            kw["starttime"] = num(start)
         elif mode == "below":
-            kw["starttime"] = float(session_arg(mode, start))
+            kw["starttime"] = num(session_arg(mode, start))
         if mode == "explicit":
-            kw["dt"] = float(dt)
+            kw["dt"] = num(dt)
         b.begin_session(scenarios=["base"], scenario_managers=["smG"], equations=["s", "tm"], **kw)
         per = []
         sv, k = 0.0, 0
@@ -195,6 +225,146 @@ def ch_routes(start, dt, n):
     return rs, fresh, shared
 
 
+def ch_session_views(start, dt, n):
+    """other views of one session: session_results by time / not by time / flat, run_step(flat=True), and a SECOND
+    session on the same bptk object after end_session (the clock must start again at the start time)."""
+    stop = num(dstr(D(start) + n * D(dt)))
+    out = {}
+    with Bptk() as b:
+        b.register_model(build_model(num(start), stop, num(dt), name="g"))
+        kw = dict(scenarios=["base"], scenario_managers=["smG"], equations=["s", "tm"], starttime=num(start), dt=num(dt))
+        b.begin_session(**kw)
+        for _ in range(n + 1):
+            b.run_step()
+        out["by_time"] = labels(b.session_results().keys())
+        out["not_by_time"] = labels(b.session_results(index_by_time=False)["smG"]["base"]["equations"]["tm"].keys())
+        out["flat"] = labels(b.session_results(flat=True).keys())
+        b.end_session()
+        b.begin_session(**kw)
+        per = []
+        for _ in range(n + 2):
+            r = b.run_step(flat=True)
+            per.append("stop" if (r is None or "msg" in r) else lab(r["smG"]["base"]["tm"]))
+        out["second_session_flat"] = ";".join(per)
+        b.end_session()
+    return out
+
+
+def lattice_pair(job):
+    """all channels of one (start, dt) pair — run in the check's process (quick) or in a worker process (thorough).
+    Returns plain data: protocol lines with the implementation's answers, reference mismatches, cases, counts."""
+    start, dt, nmax, quick, cb, sess_subset, mode_ns, numkind = job
+    quiet_bptk_logging()
+    _NUM[0] = numkind
+    adds, refs, cases = [], [], []
+    dist = {"pairs": 1, "timerange": 0, "batch": 0, "batch_views": 0, "session_calls": 0, "session_modes": 0, "session_views": 0, "route_points": 0}
+    def add(line, answer, m): adds.append((line, answer, m))
+    def ref(channel, start, dt, n, observed, expected, extra=None):
+        if observed != expected:
+            refs.append((channel, start, dt, n, observed, expected, extra))
+    def case(canon, nontrivial=True, sample=None): cases.append((canon, nontrivial, sample))
+    ns_all = list(range(0, nmax + 1))
+    nontriv = (D(dt) not in (D(1), D("0.5"), D("0.25"), D("0.125"))) or D(start) != D(start).to_integral()
+    stops = {n: dstr(D(start) + n * D(dt)) for n in range(0, nmax + 3)}
+    tag = () if numkind == "float" else (numkind,)
+    # 1. util.timerange
+    for n in ns_all:
+        for excl in (False, True):
+            ch = "timerange-excl" if excl else "timerange-incl"
+            try:
+                with Watchdog(20):
+                    obs, exp = check_channel(ch, start, dt, n)
+            except TimeoutError:
+                return {"timeout": {"channel": ch, "start": start, "dt": dt, "n": n, "timeout_s": 20, "num": numkind}}
+            add(f"timerange {start} {stops[n]} {dt} {1 if excl else 0}", obs, (ch, start, dt, n))
+            ref(ch, start, dt, n, obs, exp)
+            dist["timerange"] += 1
+            case((ch, start, dt, n) + tag, nontriv)
+    # 2. run_scenarios / plot_scenarios / Element.plot
+    extra_ns = [n for n in (3, 8, nmax) if n <= nmax]
+    res = ch_batch(start, dt, ns_all, extra_ns)
+    for n in ns_all:
+        gl = grid(start, dt, n)
+        g = ",".join(gl)
+        r = res[n]
+        add(f"sim {cb} {start} {stops[n]} {dt}", r["run"], ("run", start, dt, n))
+        add(f"sim {cb} {start} {stops[n]} {dt}", r["plotsc"], ("plotsc", start, dt, n))
+        add(f"plot {cb} {start} {stops[n]} {dt}", r["plot"], ("plot", start, dt, n))
+        ref("run", start, dt, n, r["run"], g)
+        ref("plotsc", start, dt, n, r["plotsc"], g)
+        ref("plot", start, dt, n, r["plot"], g)
+        if not r["tm_ok"]:
+            ref("routes", start, dt, n, "time() value differs from the row label", "equal")
+        dist["batch"] += 3
+        for c in ("run", "plotsc", "plot"):
+            case((c, start, dt, n) + tag, nontriv,
+                 f"run_scenarios start={start} dt={dt} n={n}: {r['run'][-40:]}" if (n == 3 and dt == "0.1") else None)
+        if "run_dict" in r:
+            sub, coarse = ",".join(gl[1:n]), ",".join(gl[0:2 * (n // 2) + 1:2])
+            for view, exp in (("run_dict", g), ("run_json", g), ("run_again", g), ("plot_arr", g), ("plot_sub", sub), ("plot_coarse", coarse)):
+                ref("run" if view.startswith("run") else "plot", start, dt, n, r[view], exp, {"view": view, "key": "grid-view-" + view})
+                dist["batch_views"] += 1
+                case((view, start, dt, n) + tag, nontriv)
+            add(f"plot {cb} {stops[1]} {stops[n - 1]} {dt}", r["plot_sub"], ("plot_sub", start, dt, n))
+            add(f"plot {cb} {start} {stops[2 * (n // 2)]} {dstr(2 * D(dt))}", r["plot_coarse"], ("plot_coarse", start, dt, n))
+    # 3. session
+    for n in sorted(set(sess_subset + [nmax])):
+        if n > nmax:
+            continue
+        calls = n + 3
+        per, logk = ch_session(start, dt, n, calls)
+        g = grid(start, dt, n)
+        add(f"session {cb} {start} {stops[n]} {dt} {calls}", per, ("session", start, dt, n))
+        ref("session", start, dt, n, per, ";".join(g + ["stop"] * 2), {"calls": calls})
+        ref("session-log", start, dt, n, logk, ",".join(g), {"calls": calls})
+        dist["session_calls"] += calls
+        case(("session", start, dt, n) + tag, nontriv,
+             f"session start={start} dt={dt} n={n}: {per[:60]}" if (n == 8 and dt == "0.1") else None)
+    # 3a. other views of a session and a second session on the same object
+    for n in [x for x in (3, 8) if x <= nmax]:
+        v = ch_session_views(start, dt, n)
+        g = grid(start, dt, n)
+        for view, exp in (("by_time", ",".join(g)), ("not_by_time", ",".join(g)), ("flat", ",".join(g)),
+                          ("second_session_flat", ";".join(g + ["stop"]))):
+            ref("session", start, dt, n, v[view], exp, {"view": view, "key": "session-view-" + view})
+            dist["session_views"] += 1
+            case(("session-view", view, start, dt, n) + tag, nontriv)
+    # 3b. the ways of beginning a session (wave 3): without starttime / dt arguments, with a starttime below the
+    #     scenario start, with starttime only — step keys, TIME = label, stock = Euler value, number of steps
+    off_grid = (D(start) % D(dt)) != 0
+    for mode in SESSION_MODES[1:]:
+        if mode == "default" and D(start) < 0:
+            continue                   # default starttime 0.0 lies AFTER a negative scenario start: the session begins at 0.0
+        for n in mode_ns:
+            if n > nmax or (quick and not off_grid and mode != "default"):
+                continue
+            calls = n + 3
+            per, logk = ch_session(start, dt, n, calls, mode)
+            g = grid(start, dt, n)
+            add(f"sessiona {cb} {session_arg(mode, start)} {start} {stops[n]} {dt} {calls}", per, ("session:" + mode, start, dt, n))
+            ref("session", start, dt, n, per, ";".join(g + ["stop"] * 2), {"calls": calls, "mode": mode, "key": "session-grid-origin"})
+            ref("session-log", start, dt, n, logk, ",".join(g), {"calls": calls, "mode": mode, "key": "session-grid-origin"})
+            dist["session_calls"] += calls
+            dist["session_modes"] += 1
+            case(("session", mode, start, dt, n) + tag, off_grid or nontriv,
+                 (f"session begun without starttime/dt, scenario start={start} dt={dt} n={n}: {per[:60]}"
+                  if (mode, start, dt, n) == ("default", "0.25", "0.5", 2) else None))
+    # 4. routes
+    rs, fresh, shared = ch_routes(start, dt, nmax)
+    g = grid(start, dt, nmax)
+    for k in range(nmax + 1):
+        vals = {fresh[r][k] for r in range(3)} | set(shared[k])
+        for r in range(3):
+            add(f"key {start} {dt} {fbits(rs[r][k])}", repr(from_fbits(fresh[r][k][0])), ("routes", start, dt, k))
+        if len(vals) != 1 or fresh[0][k][0] != fbits(float(g[k])):
+            ref("routes", start, dt, nmax, f"k={k} routes={[repr(rs[r][k]) for r in range(3)]} values={sorted(vals)}",
+                f"one value, key {g[k]}", {"k": k})
+        dist["route_points"] += 1
+        case(("routes", start, dt, k) + tag, nontriv and len({fbits(rs[r][k]) for r in range(3)}) > 1)
+    _NUM[0] = "float"
+    return {"adds": adds, "refs": refs, "cases": cases, "dist": dist, "timeout": None}
+
+
 # ----------------------------------------------------------------------------- elements that consume t (wave 2)
 CONSUMER_PAIRS_QUICK = [("0.3", "0.1", 12), ("0", "0.1", 12), ("1", "0.7", 8), ("0.05", "0.3", 8), ("0", "0.25", 6),
                         ("1000.1", "0.001", 8), ("2.25", "0.2", 8), ("0.3", "0.05", 8)]
@@ -242,6 +412,10 @@ def elem_routes(start, dt, n, k):
     r = {"grid": L(k), "i*dt": s + k * h, "add": acc, "t-dt": L(k + 1) - h, "t-dt-dt": L(k + 2) - h - h}
     if k >= 1:
         r["t+dt"] = L(k - 1) + h
+    import numpy as np
+    r["np.float64"] = np.float64(L(k))            # argument kinds: numpy scalar, Python int where the grid point is integral
+    if D(dstr(S + k * H)) == D(dstr(S + k * H)).to_integral_value():
+        r["int"] = int(S + k * H)
     return r
 
 
@@ -478,9 +652,21 @@ def first_diff(a, b, sep=","):
     return None
 
 
-def check_channel(channel, start, dt, n, calls=None, mode="explicit"):
+def view_expected(view, start, dt, n):
+    g = grid(start, dt, n)
+    if view == "plot_sub": return ",".join(g[1:n])
+    if view == "plot_coarse": return ",".join(g[0:2 * (n // 2) + 1:2])
+    if view == "second_session_flat": return ";".join(g + ["stop"])
+    return ",".join(g)
+
+
+def check_channel(channel, start, dt, n, calls=None, mode="explicit", view=None):
     """(observed, expected) of one channel on the current tree — used by the run and by replay."""
     g = grid(start, dt, n)
+    if view is not None:
+        if channel == "session":
+            return ch_session_views(start, dt, n)[view], view_expected(view, start, dt, n)
+        return ch_batch(start, dt, [n], [n])[n][view], view_expected(view, start, dt, n)
     if channel == "timerange-incl":
         return ch_timerange(start, dt, n, False), ",".join(g)
     if channel == "timerange-excl":
@@ -538,6 +724,14 @@ def run(chk):
                         "(one of (0,0.3,0.1), (1000.1,1000.103,0.001), (0.05,0.25,0.05))",
                         {"channel": "timerange-incl", "start": "0", "dt": "0.1", "n": 3, "timeout_s": 20})
         return
+    from BPTK_Py.util import timerange as _tr
+    first = _tr(0.0, 0.3, 0.1, exclusive=False)
+    first_ok = labels(first) == "0.0,0.1,0.2,0.3"   # (a wrong first answer is the lattice's to report)
+    first.append(99.0); first[0] = -1.0          # a caller may do what it likes with the list it got
+    again = _tr(0.0, 0.3, 0.1, exclusive=False)
+    if first_ok and labels(again) != "0.0,0.1,0.2,0.3":
+        chk.add_finding("timerange-labels", f"timerange(0.0, 0.3, 0.1, exclusive=False) after the caller modified the list returned by the previous identical call: {labels(again)}",
+                        {"channel": "timerange-incl", "start": "0", "dt": "0.1", "n": 3, "note": "second call after mutating the first result"})
     facts = probe()
     chk.notes["cfg"] = {k: v for k, v in facts.items()}
     cb = cfg_bits(facts)
@@ -582,6 +776,10 @@ def run(chk):
     for x in SCALE_SAMPLES + STARTS + DTS:
         p, s = precision_and_scale(float(x))
         add(f"scale {x}", f"{p} {s}", ("scale", x, "", 0))
+        if D(x) == D(x).to_integral_value() and abs(D(x)) < 10 ** 15:       # the same number written as a Python int
+            p, s = precision_and_scale(int(D(x)))
+            add(f"scale {x}", f"{p} {s}", ("scale-int", x, "", 0))
+            dist["scale_int"] = dist.get("scale_int", 0) + 1
         dist["scale"] += 1
         chk.case(("scale", x), nontrivial=True)
     # --- wave 2: elements that consume t directly (TIME, IF(TIME >= grid point), stocks incl. non-binary start
@@ -623,91 +821,49 @@ def run(chk):
         dist["runspec_cases"] += 1
     sess_subset = [0, 1, 2, 3, 7, 8, 12] if chk.quick else list(range(0, 41)) + [57, 100, 143]
     budget_hit = False
-    all_pairs = [(st, d_) for st in STARTS for d_ in DTS] + EXTRA_PAIRS
-    for start, dt in all_pairs:
-        if True:
-            dist["pairs"] += 1
-            nontriv = (D(dt) not in (D(1), D("0.5"), D("0.25"), D("0.125"))) or D(start) != D(start).to_integral()
-            stops = {n: dstr(D(start) + n * D(dt)) for n in ns_all}
-            # 1. util.timerange
-            for n in ns_all:
-                for excl in (False, True):
-                    ch = "timerange-excl" if excl else "timerange-incl"
-                    try:
-                        with Watchdog(20):
-                            obs, exp = check_channel(ch, start, dt, n)
-                    except TimeoutError:
-                        chk.add_finding("time-grid-no-termination", f"util.timerange does not terminate: start={start} dt={dt} n={n} exclusive={excl}",
-                                        {"channel": ch, "start": start, "dt": dt, "n": n, "timeout_s": 20})
-                        return
-                    add(f"timerange {start} {stops[n]} {dt} {1 if excl else 0}", obs, (ch, start, dt, n))
-                    ref(ch, start, dt, n, obs, exp)
-                    dist["timerange"] += 1
-                    chk.case((ch, start, dt, n), nontrivial=nontriv)
-            # 2. run_scenarios / plot_scenarios / Element.plot
-            res = ch_batch(start, dt, ns_all)
-            for n in ns_all:
-                g = ",".join(grid(start, dt, n))
-                r = res[n]
-                add(f"sim {cb} {start} {stops[n]} {dt}", r["run"], ("run", start, dt, n))
-                add(f"sim {cb} {start} {stops[n]} {dt}", r["plotsc"], ("plotsc", start, dt, n))
-                add(f"plot {cb} {start} {stops[n]} {dt}", r["plot"], ("plot", start, dt, n))
-                ref("run", start, dt, n, r["run"], g)
-                ref("plotsc", start, dt, n, r["plotsc"], g)
-                ref("plot", start, dt, n, r["plot"], g)
-                if not r["tm_ok"]:
-                    ref("routes", start, dt, n, "time() value differs from the row label", "equal")
-                dist["batch"] += 3
-                for c in ("run", "plotsc", "plot"):
-                    chk.case((c, start, dt, n), nontrivial=nontriv,
-                             sample=f"run_scenarios start={start} dt={dt} n={n}: {r['run'][-40:]}" if (n == 3 and dt == "0.1") else None)
-            # 3. session
-            for n in sorted(set(sess_subset + [nmax])):
-                if n > nmax:
-                    continue
-                calls = n + 3
-                per, logk = ch_session(start, dt, n, calls)
-                g = grid(start, dt, n)
-                add(f"session {cb} {start} {stops[n]} {dt} {calls}", per, ("session", start, dt, n))
-                ref("session", start, dt, n, per, ";".join(g + ["stop"] * 2), {"calls": calls})
-                ref("session-log", start, dt, n, logk, ",".join(g), {"calls": calls})
-                dist["session_calls"] += calls
-                chk.case(("session", start, dt, n), nontrivial=nontriv,
-                         sample=f"session start={start} dt={dt} n={n}: {per[:60]}" if (n == 8 and dt == "0.1") else None)
-            # 3b. the ways of beginning a session (wave 3): without starttime / dt arguments, with a starttime below the
-            #     scenario start, with starttime only — step keys, TIME = label, stock = Euler value, number of steps
-            off_grid = (D(start) % D(dt)) != 0
-            for mode in SESSION_MODES[1:]:
-                for n in ([2, 7] if chk.quick else [0, 1, 2, 3, 7, 8, 12, 40]):
-                    if n > nmax or (chk.quick and not off_grid and mode != "default"):
-                        continue
-                    calls = n + 3
-                    per, logk = ch_session(start, dt, n, calls, mode)
-                    g = grid(start, dt, n)
-                    add(f"sessiona {cb} {session_arg(mode, start)} {start} {stops[n]} {dt} {calls}", per,
-                        ("session:" + mode, start, dt, n))
-                    ref("session", start, dt, n, per, ";".join(g + ["stop"] * 2), {"calls": calls, "mode": mode, "key": "session-grid-origin"})
-                    ref("session-log", start, dt, n, logk, ",".join(g), {"calls": calls, "mode": mode, "key": "session-grid-origin"})
-                    dist["session_calls"] += calls
-                    dist["session_modes"] = dist.get("session_modes", 0) + 1
-                    chk.case(("session", mode, start, dt, n), nontrivial=off_grid or nontriv,
-                             sample=(f"session begun without starttime/dt, scenario start={start} dt={dt} n={n}: {per[:60]}"
-                                     if (mode, start, dt, n) == ("default", "0.25", "0.5", 2) else None))
-            # 4. routes
-            rs, fresh, shared = ch_routes(start, dt, nmax)
-            g = grid(start, dt, nmax)
-            for k in range(nmax + 1):
-                vals = {fresh[r][k] for r in range(3)} | set(shared[k])
-                for r in range(3):
-                    add(f"key {start} {dt} {fbits(rs[r][k])}", repr(from_fbits(fresh[r][k][0])), ("routes", start, dt, k))
-                if len(vals) != 1 or fresh[0][k][0] != fbits(float(g[k])):
-                    ref("routes", start, dt, nmax, f"k={k} routes={[repr(rs[r][k]) for r in range(3)]} values={sorted(vals)}",
-                        f"one value, key {g[k]}", {"k": k})
-                dist["route_points"] += 1
-                chk.case(("routes", start, dt, k), nontrivial=nontriv and len({fbits(rs[r][k]) for r in range(3)}) > 1)
+    mode_ns = [2, 7] if chk.quick else [0, 1, 2, 3, 7, 8, 12, 40]
+    jobs = [(st, d_, nmax, chk.quick, cb, sess_subset, mode_ns, "float") for st in STARTS for d_ in DTS]
+    jobs += [(st, d_, nmax, chk.quick, cb, sess_subset, mode_ns, "float") for st, d_ in EXTRA_PAIRS]
+    # value kinds of run specs (wave 7): negative starts, large magnitudes, Python ints where the decimal is integral
+    kmax = 12 if chk.quick else 40
+    jobs += [(st, d_, kmax, chk.quick, cb, [0, 1, 2, 3, 7, 8, 12], [2, 7], kind) for st, d_, kind in KIND_PAIRS]
+    def merge(res, job):
+        if res["timeout"] is not None:
+            t = res["timeout"]
+            chk.add_finding("time-grid-no-termination", f"util.timerange does not terminate: start={t['start']} dt={t['dt']} n={t['n']} channel={t['channel']}", t)
+            return False
+        for a in res["adds"]:
+            add(*a)
+        for r_ in res["refs"]:
+            if job[7] != "float":
+                r_ = r_[:6] + (dict(r_[6] or {}, num=job[7]),)
+            ref(*r_)
+        for c_ in res["cases"]:
+            chk.case(c_[0], nontrivial=c_[1], sample=c_[2])
+        for k_, v_ in res["dist"].items():
+            dist[k_] = dist.get(k_, 0) + v_
+        if job[7] != "float" or D(job[0]) < 0 or abs(D(job[0])) >= 100000:
+            kd = "int" if job[7] == "int" else ("negative start" if D(job[0]) < 0 else "large start")
+            dist.setdefault("runspec_value_kinds", {})
+            dist["runspec_value_kinds"][kd] = dist["runspec_value_kinds"].get(kd, 0) + len(res["cases"])
+        return True
+    workers = max(1, min(4 if chk.quick else 8, (os.cpu_count() or 2) // 2))
+    workers = int(os.environ.get("VERIF_C05_WORKERS", workers))
+    chk.notes["lattice_workers"] = workers
+    if workers == 1:
+        for job in jobs:
+            if not merge(lattice_pair(job), job):
+                return
             if chk.quick and time.time() - t_start > 150:
                 budget_hit = True
                 break
+    else:
+        import multiprocessing
+        from concurrent.futures import ProcessPoolExecutor
+        with ProcessPoolExecutor(max_workers=workers, mp_context=multiprocessing.get_context("spawn")) as ex:
+            for job, res in zip(jobs, ex.map(lattice_pair, jobs)):
+                if not merge(res, job):
+                    return
     if budget_hit:
         chk.cov["exhaustive"] = False
         chk.notes["budget"] = "quick-tier time budget hit before the lattice was finished"
@@ -745,7 +901,8 @@ def replay(path):
         return 1
     try:
         with Watchdog(r.get("timeout_s", 120)):
-            obs, exp = check_channel(r["channel"], r["start"], r["dt"], r["n"], r.get("calls"), r.get("mode", "explicit"))
+            _NUM[0] = r.get("num", "float")
+            obs, exp = check_channel(r["channel"], r["start"], r["dt"], r["n"], r.get("calls"), r.get("mode", "explicit"), r.get("view"))
     except TimeoutError:
         print(f"channel={r['channel']} start={r['start']} dt={r['dt']} n={r['n']}: no answer within the time limit — still failing")
         return 1
